@@ -7,7 +7,7 @@ import crash as C
 
 LEVEL = "proof"
 COQ_TARGETS = ("props/C10.vo",)
-THEOREMS = ["C10_evicted_only_when_durable", "C10_oldest_first", "C10_back_to_one_partial", "C10_example"]
+THEOREMS = ["C10_evicted_only_when_durable", "C10_oldest_first", "C10_back_to_one_partial", "C10_example", "C10_journal_complete", "C10_journal_complete_with_deletion", "C10_eviction_keeps_journal_complete"]
 
 
 def build_workload(seed):
